@@ -278,3 +278,109 @@ Theorem C13_call_examples :
   /\ option_map (fun c => (cCur c, Memo.hd_or (cRegs c))) (Memo.api_call MemoCalls.scipy_full Memo.after_fit (0, 0, 0)) = Some (0, Some 5%Z).
 Proof. exact MemoCalls.call_examples. Qed.
 Print Assumptions C13_call_examples.
+
+(* ====================================================================== on the REAL State model (Compose/)
+   The hypothesis [state_interface] is discharged (C11_state_interface_discharged in Props/C11.v; repeated below as
+   C13_state_interface_discharged): a cell is the `_values` of a State object of State/StateModel.v, [r_read] / [r_write] /
+   [r_clone] are State.__getitem__ / __setitem__ / clone of the model of the code as it is.  The statements are about State
+   objects: [S] is any store reachable from [init_store] ([Reach], the hypothesis of C01_never_stale), [s] its State number
+   [k] (= `model.state`), the call runs on [abs s]; the conclusions are read off the State objects of the store the call leaves
+   (again reachable).  Left in the statements: [WF g] (C15), [F_mix g sm] (C07; for the partial reverts of the past history
+   only) and the script-shape conditions of the original theorems. *)
+From Leaspy Require Import State.StateModel State.StateNow State.StateExec Compose.StateApi Compose.StateApiProofs
+                           Compose.StateApiRunProofs Compose.ApiOnStateProofs Compose.ComposeExamples.
+
+Theorem C13_state_interface_discharged :
+  forall (V : Type) (g : graph V), WF g ->
+    state_interface V (r_read V g) (r_write V g) (r_clone V g) (r_anc V g) (r_indep V g) (r_simOn V g).
+Proof. exact real_state_interface. Qed.
+Print Assumptions C13_state_interface_discharged.
+
+(** estimate: in the store of State objects the call leaves — reached from the former one by State operations without any
+    partial revert — the model's State OBJECT holds exactly the values it held (cache included), `model.state` still points
+    to it and no generator moved. *)
+Theorem C13_estimate_pure_state :
+  forall (V M IX : Type) (g : graph V) (sm : sem V M IX), WF g -> F_mix g sm ->
+  forall tracked tape seed_pos (tvar modelvar : nat) (tin : option V) (ips : list (nat * option V))
+         (S : StateModel.store V) (k : nat) (s : state V) (p : gpos) (c' : cfg V),
+    Reach V g M IX sm S -> nth_error S k = Some s ->
+    api_call V (r_read V g) (r_write V g) (r_clone V g) tracked tape seed_pos (estimate_script V tvar modelvar tin ips) (abs V g s) p = Some c' ->
+    cCur c' = 0 /\ cPos c' = p /\ nth_error (cS c') 0 = Some (abs V g s) /\
+    exists ops s', forallb (@no_partial_revert V M IX) ops = true /\ Reach V g M IX sm (fst (run_now g sm S ops)) /\
+                   nth_error (fst (run_now g sm S ops)) k = Some s' /\ forall i, i < gn g -> values s' i = values s i.
+Proof. exact estimate_pure_state. Qed.
+Print Assumptions C13_estimate_pure_state.
+
+(** simulate and every call that only reads the model's state: afterwards `model.state` is a reachable State object on which
+    every non-derived variable (parameters, hyper-parameters, population and individual variables, data) holds the same
+    value and every read gives the same result — value or error — as before. *)
+Theorem C13_simulate_pure_state :
+  forall (V M IX : Type) (g : graph V) (sm : sem V M IX), WF g -> F_mix g sm ->
+  forall tracked tape seed_pos (script : list (ev V)) (S : StateModel.store V) (k : nat) (s : state V) (p : gpos) (c' : cfg V),
+    Reach V g M IX sm S -> nth_error S k = Some s ->
+    forallb (writes_in V (fun _ => false)) script = true ->
+    api_call V (r_read V g) (r_write V g) (r_clone V g) tracked tape seed_pos script (abs V g s) p = Some c' ->
+    exists S' k' s', Reach V g M IX sm S' /\ nth_error S' k' = Some s' /\ model_state V c' = Some (abs V g s') /\
+      (forall i, linked g i = false -> values s' i = values s i) /\
+      (forall i, snd (get_state g s' i) = snd (get_state g s i)).
+Proof. exact simulate_pure_state. Qed.
+Print Assumptions C13_simulate_pure_state.
+
+(** MCMC personalisation: afterwards `model.state` is a NEW reachable State object in which every non-derived variable of P
+    holds what it held before the call, and every data / individual variable (settable variables outside P) is unset:
+    reading it raises the input error. *)
+Theorem C13_mcmc_clean_state :
+  forall (V M IX : Type) (g : graph V) (sm : sem V M IX), WF g -> F_mix g sm ->
+  forall tracked tape seed_pos (P : view) (data : list (nat * option V)) (init_ind : list (nat * (regs V -> option V)))
+         (body : list (ev V)) (dvars ivars : list nat) (S : StateModel.store V) (k : nat) (s : state V) (p : gpos) (c' : cfg V),
+    Reach V g M IX sm S -> nth_error S k = Some s ->
+    (forall i, In i (dvars ++ ivars) -> P i = false /\ i < gn g /\ settable g i = true) ->
+    (forall nv, In nv data -> In (fst nv) (dvars ++ ivars)) ->
+    (forall nf, In nf init_ind -> In (fst nf) (dvars ++ ivars)) ->
+    forallb (fun e => writes_in V (ApiProofs.mem (dvars ++ ivars)) e && noclone_ev V e) body = true ->
+    api_call V (r_read V g) (r_write V g) (r_clone V g) tracked tape seed_pos (mcmc_script V data init_ind body dvars ivars) (abs V g s) p = Some c' ->
+    cCur c' = 1 /\
+    exists S' k' s', Reach V g M IX sm S' /\ nth_error S' k' = Some s' /\ model_state V c' = Some (abs V g s') /\
+      (forall i, P i = true -> linked g i = false -> values s' i = values s i) /\
+      (forall i, In i (dvars ++ ivars) -> snd (get_state g s' i) = Err InputError).
+Proof. exact mcmc_clean_state. Qed.
+Print Assumptions C13_mcmc_clean_state.
+
+(** History independence: two reachable State objects — of any two reachable stores, whatever histories produced them —
+    that agree on the kept non-derived variables give the same outcome for every script the flow check accepts. *)
+Theorem C13_history_independent_state :
+  forall (V M IX : Type) (g : graph V) (sm : sem V M IX), WF g -> F_mix g sm ->
+  forall tracked tape seed_pos (kept : view) (script : list (ev V))
+         (S : StateModel.store V) (k : nat) (s : state V) (S0 : StateModel.store V) (k0 : nat) (s0 : state V) (p : gpos),
+    Reach V g M IX sm S -> nth_error S k = Some s -> Reach V g M IX sm S0 -> nth_error S0 k0 = Some s0 ->
+    (forall i, kept i = true -> linked g i = false -> values s i = values s0 i) ->
+    flow_all V (r_anc V g) 1 ([kept], 0) script <> None ->
+    orel (same_outcome V) (api_call V (r_read V g) (r_write V g) (r_clone V g) tracked tape seed_pos script (abs V g s) p)
+                          (api_call V (r_read V g) (r_write V g) (r_clone V g) tracked tape seed_pos script (abs V g s0) p).
+Proof. exact history_independent_state. Qed.
+Print Assumptions C13_history_independent_state.
+
+(** Non-vacuity on the 7-node graph of Compose/ComposeExamples.v after a 14-operation past (partial revert, clone, full
+    revert on the clone): State object 0 of the reachable store as the API sees it; estimate returns 100 + 6 + (1 + 10) and
+    leaves the cell as it was; the hypotheses of C13_mcmc_clean_state hold and the call leaves cell 1 current with the
+    parameters kept and the individual variable (hence the model) unset. *)
+Theorem C13_state_examples :
+  WF Demo.g /\ F_mix Demo.g Demo.sm /\ Reach xval Demo.g (list bool) nat Demo.sm Demo.S0 /\
+  nth_error Demo.S0 0 = Some (nth 0 Demo.S0 (init_state Demo.g None)) /\
+  Demo.abs0 = [Some (XS (AFin 100)); Some (XS (AFin 7)); Some (XS (AFin 3)); Some (XS (AFin 6));
+               Some (XP [AFin 1; AFin 1]); Some (XP [AFin 4; AFin 4]); Some (XS (AFin 114))]%Z /\
+  option_map (fun c => (cRegs c, nth_error (cS c) 0, cCur c)) (Demo.a_api_call Demo.est Demo.abs0 (0, 0, 0))
+    = Some ([Some (XS (AFin 117))]%Z, Some Demo.abs0, 0) /\
+  ((forall i, In i ([] ++ [4]) -> Demo.keptP i = false /\ i < gn Demo.g /\ settable Demo.g i = true) /\
+   (forall nv : nat * option xval, In nv [] -> In (fst nv) ([] ++ [4])) /\
+   (forall nf, In nf [(4, fun _ : regs xval => Some (XP [AFin 0; AFin 0]))] -> In (fst nf) ([] ++ [4])) /\
+   forallb (fun e => writes_in xval (ApiProofs.mem ([] ++ [4])) e && noclone_ev xval e)
+           [EGet Cur 6; EDraw GTorch (fun _ => true); ESet Cur 4 Demo.hd_or; EGet Cur 6] = true) /\
+  option_map (fun c => (cCur c, option_map (fun s => map (fun i => snd (r_read xval Demo.g s i)) [1; 2; 4; 6]) (model_state xval c)))
+             (Demo.a_api_call Demo.mcmc Demo.abs0 (0, 0, 0))
+    = Some (1, Some [Some (XS (AFin 7%Z)); Some (XS (AFin 3%Z)); None; None]).
+Proof.
+  exact (conj Demo.g_wf (conj Demo.g_fmix (conj Demo.S0_reach (conj Demo.S0_nth0 (conj Demo.abs0_is
+        (conj Demo.estimate_runs (conj Demo.mcmc_hypotheses Demo.mcmc_runs))))))).
+Qed.
+Print Assumptions C13_state_examples.
